@@ -48,6 +48,7 @@ type Solver struct {
 	seed     int
 	noCache  bool
 	smokeOnly bool
+	noRetry  bool
 	mu       sync.Mutex
 	Stats    map[string]int
 	SolverS  float64
@@ -161,10 +162,43 @@ func (sv *Solver) Solve(name, query string) (result, solver string, secs float64
 		}
 		details = append(details, x.solver+": "+x.r+" "+strings.ReplaceAll(d, "\n", " "))
 	}
-	secs = time.Since(start).Seconds()
 	if firstSat != "" {
-		return "sat", firstSat, secs, firstSatOut
+		return "sat", firstSat, time.Since(start).Seconds(), firstSatOut
 	}
+	// stage 3: quantifier instantiation is sensitive to the random seed; before
+	// reporting an obligation as undischarged, retry with other seeds and a
+	// longer limit (only failing obligations pay for this).
+	if !sv.noRetry {
+		ctx3, cancel3 := context.WithCancel(context.Background())
+		defer cancel3()
+		type job struct {
+			sd   solverDef
+			seed int
+		}
+		jobs := []job{{solvers[0], sv.seed + 11}, {solvers[0], sv.seed + 23}, {solvers[0], sv.seed + 37}, {solvers[1], sv.seed + 5}, {solvers[2], sv.seed + 7}}
+		ch3 := make(chan res, len(jobs))
+		for _, j := range jobs {
+			j := j
+			go func() {
+				r, out := runOne(ctx3, j.sd, file, sv.timeout*3, j.seed)
+				ch3 <- res{r, out, fmt.Sprintf("%s(seed %d)", j.sd.name, j.seed)}
+			}()
+		}
+		for range jobs {
+			x := <-ch3
+			if x.r == "unsat" {
+				cancel3()
+				secs = time.Since(start).Seconds()
+				sv.store(cfile, "unsat", x.solver, secs)
+				return "unsat", x.solver, secs, ""
+			}
+			if x.r == "sat" {
+				cancel3()
+				return "sat", x.solver, time.Since(start).Seconds(), x.out
+			}
+		}
+	}
+	secs = time.Since(start).Seconds()
 	return final, "", secs, strings.Join(details, " | ")
 }
 
